@@ -898,22 +898,24 @@ impl PreExp {
             Self::BinaryOperation(_, _, _) | Self::UnaryOperation(_, _)
         )
     }
-    fn to_string_with_precedence(&self, previous_precedence: u8) -> String {
+    /// Renders this expression as the left or right operand of `parent`, wrapping it in
+    /// parentheses whenever dropping them would change the grouping: a weaker operator always,
+    /// an operator of the same level on the side the parser would not associate to
+    /// (`a - (b - c)`, `a / (b * c)`, `(p implies q) implies r`).
+    fn to_string_as_operand(&self, parent: BinOp, is_right: bool) -> String {
         match self {
-            Self::BinaryOperation(op, lhs, rhs) => {
-                //TODO add implied multiplication like 2x 2(x + y) etc...
-                /*
-                   implicit_mul = {
-                       (number | parenthesis){2,} ~ variable? |
-                       (number | parenthesis) ~ variable
-                   }
-                */
-                let lhs_str = lhs.to_string_with_precedence(op.precedence());
-                let rhs_str = rhs.to_string_with_precedence(op.precedence());
-                if op.precedence() < previous_precedence {
-                    format!("({} {} {})", lhs_str, **op, rhs_str)
+            Self::BinaryOperation(op, _, _) => {
+                let same_level_regroups = if is_right {
+                    parent.is_left_associative() || op.is_left_associative()
                 } else {
-                    format!("{} {} {}", lhs_str, **op, rhs_str)
+                    !parent.is_left_associative() || !op.is_left_associative()
+                };
+                if op.precedence() < parent.precedence()
+                    || (op.precedence() == parent.precedence() && same_level_regroups)
+                {
+                    format!("({})", self)
+                } else {
+                    self.to_string()
                 }
             }
             _ => self.to_string(),
@@ -979,8 +981,8 @@ impl fmt::Display for PreExp {
             Self::BlockFunction(f) => f.to_string(),
             Self::BlockScopedFunction(f) => f.to_string(),
             Self::BinaryOperation(op, lhs, rhs) => {
-                let rhs = rhs.to_string_with_precedence(op.precedence());
-                let lhs = lhs.to_string_with_precedence(op.precedence());
+                let rhs = rhs.to_string_as_operand(**op, true);
+                let lhs = lhs.to_string_as_operand(**op, false);
                 format!("{} {} {}", lhs, **op, rhs)
             }
             Self::CompoundVariable(c) => c.to_string(),
